@@ -69,6 +69,9 @@ class Impl:
     def tokenize(self, text):
         return [(t[0], t[1], t[2], t[3]) for t in self.tok.tokenize(text)]
 
+    def prepare(self, toks):
+        return [(t[0], t[1]) for t in self.css.Selector()._prepare_tokens(iter(list(toks)))]
+
     # -- canonical observables, formatted exactly like lean/Drv/C16.lean
     def show_val(self, v):
         if isinstance(v, tuple):
@@ -203,6 +206,14 @@ class C16(Check):
                 idx.append(i)
         replies = ctx.driver(lines) if (ctx.model_ok and lines) else []
         model = dict(zip(idx, replies))
+        preps = ctx.driver(['prep %s' % enc_toks(cases[i]['toks']) for i in idx]) if (ctx.model_ok and lines) else []
+        for i, m in zip(idx, preps):
+            try:
+                want = enc_toks(im.prepare(cases[i]['toks']))
+            except Exception as e:                      # noqa: BLE001
+                want = 'RAISE ' + type(e).__name__
+            if m != want:
+                ctx.disagree('Selector._prepare_tokens', self.witness(cases[i]), want, m)
         for i, c in enumerate(cases):
             got, s = im.sel(c['toks'], c['ns'])
             c['impl'], c['obj'] = got, s
@@ -293,10 +304,11 @@ class C16(Check):
                 sp = g.Spelling(rng, ws=rng.choice([0, 0.3, 0.7]), comments=rng.choice([0, 0.1, 0.3]),
                                 case=rng.choice([0, 0.3, 1.0]), escapes=rng.choice([0, 0.1, 0.4]),
                                 minimal=(variant == 0 and rng.random() < 0.3))
-                text = g.render_selector(ast, sp)
+                text, words = g.render_selector(ast, sp, tokenize=lambda t: [(x[0], x[1]) for x in im.tok.tokenize(t)])
                 cases.append({'kind': 'grammar', 'ast': ast, 'ns': ns, 'text': text, 'toks': im.tokenize(text),
-                              'group': i})
+                              'group': i, 'words': words})
         self.check_selectors(ctx, im, cases)
+        self.check_spec(ctx, im, cases)
         for c in cases:
             self.oracle_grammar(ctx, im, c)
         # pairwise invariance inside a group (same AST, different spelling)
@@ -327,6 +339,45 @@ class C16(Check):
                 ctx.violate('specificity known by construction (non-ASCII pseudo-class name)', self.witness(c),
                             {'impl': c['impl'][:200], 'want': want})
             self.oracle_any(ctx, im, c)
+
+    def check_spec(self, ctx, im, cases):
+        """the specification side of the theorems (Model/SelSpec.lean) against tokenizer and implementation:
+        `Sel.raw` of the written selector = the real tokenizer's tokens of its text; `Sel.ok`; `Sel.count`,
+        `Sel.items`, `Sel.element` = what the implementation reports"""
+        if not ctx.model_ok:
+            return
+        good = [c for c in cases if in_model_domain(c['toks'])]
+        replies = ctx.driver(['spec %s %s' % (enc_ns(c['ns']), ' '.join(c['words'])) for c in good])
+        for c, r in zip(good, replies):
+            w = dict(self.witness(c), words=' '.join(c['words']))
+            if not r.startswith('SPEC '):
+                ctx.disagree('written-selector wire format', w, None, r)
+                continue
+            f = dict(x.split('=', 1) for x in r.split(' ')[5:])
+            ok, b, cc, d = r.split(' ')[1:5]
+            if ok != 'ok=1':
+                ctx.disagree('Sel.ok holds for generated written selectors', w, True, r[:80])
+            if f['RAW'] != enc_toks(c['toks']):
+                ctx.disagree('Sel.raw = tokens of the real tokenizer', w, enc_toks(c['toks']), f['RAW'])
+            got = c['impl']
+            if got.startswith('OK'):
+                p = got.split(' ')
+                gf = dict(x.split('=', 1) for x in p[4:])
+                if (b, cc, d) != (p[1], p[2], p[3]):
+                    ctx.disagree('Sel.count = reported specificity', w, p[1:4], [b, cc, d])
+                if f['I'] != gf['I']:
+                    ctx.disagree('Sel.items = parsed seq', w, gf['I'], f['I'])
+                if f['E'] != gf['E']:
+                    ctx.disagree('Sel.element = Selector.element', w, gf['E'], f['E'])
+            else:
+                ctx.disagree('a written selector is accepted', w, got, r[:80])
+            try:
+                cooked = enc_toks(im.prepare(c['toks']))
+            except Exception as e:                      # noqa: BLE001
+                cooked = 'RAISE ' + type(e).__name__
+            if f['COOKED'] != cooked:
+                ctx.disagree('Sel.cooked = Selector._prepare_tokens(tokens)', w, cooked, f['COOKED'])
+            ctx.count('spec-checked')
 
     def oracle_grammar(self, ctx, im, c):
         """the generator knows specificity and structure by construction"""
